@@ -196,6 +196,16 @@ func (fv *FuncVerifier) arith(st *State, op token.Token, a, b Val, t types.Type,
 		fv.eng.needBitFns = true
 		return "(bit.or " + a.T + " " + b.T + ")"
 	case token.XOR:
+		// x ^ all-ones of an unsigned type is exact arithmetic: (2^w - 1) - x
+		if w, signed := intWidth(t); w > 0 && !signed {
+			ones := new(big.Int).Sub(new(big.Int).Lsh(big.NewInt(1), uint(w)), big.NewInt(1)).String()
+			if b.T == ones {
+				return "(- " + ones + " " + a.T + ")"
+			}
+			if a.T == ones {
+				return "(- " + ones + " " + b.T + ")"
+			}
+		}
 		fv.eng.needBitFns = true
 		return "(bit.xor " + a.T + " " + b.T + ")"
 	case token.AND_NOT:
